@@ -21,7 +21,10 @@ association lists that can be read in one sitting:
   (`lAlgScript`), `is_subset` / `is_disjoint` are `SetAlg.isSubsetCode` / `isDisjointCode`;
 * `clone_to`, `from_iter`, `extend`, `&a - &b`, serialize-then-deserialize are folds of single inserts
   (`FromIter.foldInsert`) over the (cloned) items, panicking when an item with a new key finds the
-  target full.
+  target full;
+* `a.extend(b)` with the set `b` moved in (`extend_from`) is the fold of single inserts of `b`'s keys
+  in the order the consuming iterator yields them (last slot first) into `a`, and `b` is empty
+  afterwards — also when a new key finds `a` full (then what went in so far stays in `a`).
 
 The two theorems below say that `step` / `run` compute exactly this function: the same outcome
 (`ok` / the same panic class / never `ub`), the same returned value tree — including the slot
